@@ -24,11 +24,11 @@
 (***************************************************************************)
 EXTENDS Integers, Sequences, FiniteSets, TLC, Json
 
-CONSTANTS N, WithClash
+CONSTANTS N, WithClash, RootOnly        \* RootOnly: the host adds module 1 only (a larger N stays small)
 
 Mods == 1..N
 Dags == {d \in [Mods -> SUBSET Mods] : \A m \in Mods : \A j \in d[m] : j > m}
-Orders == UNION {{s \in [1..k -> Mods] : \A i, j \in 1..k : i # j => s[i] # s[j]} : k \in 1..N}
+Orders == IF RootOnly THEN {<<1>>} ELSE UNION {{s \in [1..k -> Mods] : \A i, j \in 1..k : i # j => s[i] # s[j]} : k \in 1..N}
 \* function names: normally module m defines "f<m>"; with a clash, module N defines the same name as module 1
 Defs(clash) == [m \in Mods |-> IF clash /\ m = N /\ N > 1 THEN 1 ELSE m]
 
